@@ -19,6 +19,7 @@ import (
 func init() {
 	register("sysc", syscStream)
 	register("kf.C05-a", kfC05a)
+	register("kf.C09-e.sysc", kfC09eSysc)
 }
 
 var syscMu sync.Mutex
@@ -151,6 +152,20 @@ func kfC05a(g *hx.Gen, id int) hx.Case {
 	ops := []scOp{{kind: 'O', path: p, status: st, hdr: [][2]string{{"Content-Type", "text/plain"}}, body: []byte("error-or-created-body"), rerr: -1},
 		{kind: 'R', method: "GET", path: p}}
 	return syscRun("kf.C05-a", id, 0, ops)
+}
+
+// C09-e seen from C08: a stale entry whose revalidation is answered 5xx/410/… WITHOUT a body is
+// re-published with Revalidated = now and served as a hit although no origin vouched for it
+func kfC09eSysc(g *hx.Gen, id int) hx.Case {
+	syscMu.Lock()
+	defer syscMu.Unlock()
+	st := []int{500, 503, 410}[id%3]
+	p := "kf9e" + hx.I(id)
+	ops := []scOp{{kind: 'O', path: p, status: 200, hdr: [][2]string{{"Cache-Control", "max-age=5"}, {"ETag", "\"e1\""}}, body: []byte("body-" + p + "-v1"), rerr: -1},
+		{kind: 'R', method: "GET", path: p}, {kind: 'T', dt: 5},
+		{kind: 'O', path: p, status: st, hdr: [][2]string{{"Cache-Control", "max-age=5"}}, body: nil, rerr: -1},
+		{kind: 'R', method: "GET", path: p}, {kind: 'R', method: "GET", path: p}}
+	return syscRun("kf.C09-e.sysc", id, 0, ops)
 }
 
 func syscRun(stream string, id int, force int, ops []scOp) hx.Case {
